@@ -139,3 +139,51 @@ Print Assumptions C08_compute_switch.
 Print Assumptions C08_compute_names_overdrawn_account.
 Print Assumptions C08_compute_rejects_exactly_overdrafts.
 Print Assumptions C08_compute_tax_names_overdrawn_account.
+
+(** ------------------------------------------------------------------------------------------------------------
+    Without the premise "the run with -n succeeds" (Proofs/ComputeTotal.v).  [C08_compute_rejects_exactly_overdrafts] above
+    assumes that the computation goes through when negative balances are allowed.  On the matcher's output for a history built
+    by the constructors ([matched_history sched h t fs]: [build h = Ok t], IN rows in sheet order, events of one instant in one
+    local year, the schedule covers every event year with distinct years, [fractions_of gen_always_repush sched t = Ok fs]) that
+    premise is a theorem: every other stage of [compute] succeeds, for every window.  So the overdraft guard is the ONLY way
+    the computation fails, and it fails exactly on an overdraft without -n. *)
+From RP2V Require Import Model.MatchSpec Model.TotalSpec Proofs.PipelineWf Proofs.ComputeTotal Proofs.L4Examples Proofs.ComputeTotalExamples.
+
+Theorem C08_guard_is_the_only_failure : forall sched h t fs, matched_history sched h t fs ->
+  forall period from_day to_day allow exs hos e,
+  compute period from_day to_day allow exs hos t fs = Err e -> e = ENegBalance /\ allow = false.
+Proof. exact compute_only_error. Qed.
+
+Theorem C08_rejected_exactly_on_overdraft : forall sched h t fs, matched_history sched h t fs ->
+  forall period from_day to_day exs hos, holders_ok t ->
+  (exists cd, compute period from_day to_day true exs hos t fs = Ok cd /\
+     (never_overdrawn to_day t -> compute period from_day to_day false exs hos t fs = Ok cd)) /\
+  (forall allow, compute period from_day to_day allow exs hos t fs = Err ENegBalance <-> allow = false /\ some_overdraft to_day t) /\
+  (forall allow, (exists cd, compute period from_day to_day allow exs hos t fs = Ok cd) <-> allow = true \/ never_overdrawn to_day t).
+Proof. exact compute_err_exact. Qed.
+
+(** the same for matching + aggregation: besides the overdraft the only failure is the matcher running out of lots *)
+Theorem C08_compute_tax_outcome : forall sched h t evs, built_history sched h t -> taxable_events t = Ok evs ->
+  forall period from_day to_day allow exs hos, holders_ok t ->
+  (compute_tax period from_day to_day allow exs hos sched t = Err EExhausted <-> lots_exhausted t evs) /\
+  (compute_tax period from_day to_day allow exs hos sched t = Err ENegBalance <->
+     ~ lots_exhausted t evs /\ allow = false /\ some_overdraft to_day t) /\
+  ((exists cd, compute_tax period from_day to_day allow exs hos sched t = Ok cd) <->
+     ~ lots_exhausted t evs /\ (allow = true \/ never_overdrawn to_day t)) /\
+  (forall e, compute_tax period from_day to_day allow exs hos sched t = Err e -> e = EExhausted \/ e = ENegBalance).
+Proof. exact compute_tax_outcome. Qed.
+
+(** non-vacuity (Proofs/ComputeTotalExamples.v): [hB'] = buy 1 on E0, buy 5 on E1, sell 2 from E0 -- enough lots for the matcher,
+    but the selling account is overdrawn: rejected without -n when the to-date includes the sale, computed with -n, computed
+    without -n for a to-date before the sale *)
+Theorem C08_guard_only_failure_nonvacuous :
+  matched_history schedA hB' tB' fsB' /\ holders_ok tB' /\
+  compute 365 0 100000 false exsA hosA tB' fsB' = Err ENegBalance /\
+  (exists cd, compute 365 0 100000 true exsA hosA tB' fsB' = Ok cd) /\
+  (exists cd, compute 365 0 18005 false exsA hosA tB' fsB' = Ok cd).
+Proof. exact (conj hB'_matched (conj tB'_holders_ok hB'_outcomes)). Qed.
+
+Print Assumptions C08_guard_is_the_only_failure.
+Print Assumptions C08_rejected_exactly_on_overdraft.
+Print Assumptions C08_compute_tax_outcome.
+Print Assumptions C08_guard_only_failure_nonvacuous.
